@@ -147,6 +147,26 @@ class Check:
                           if v.rule == replay_filter.get("rule")
                           and v.key() == replay_filter.get("key")]
 
+        if self.rule_errors and violations and replay_filter is None:
+            # A tree that introduces private helpers unknown at the analysed baseline AND makes
+            # a rule lose its anchors has been restructured.  Verdicts of the sibling rules
+            # about the old (anchor) units of such a tree are then shape mismatches that nobody
+            # confirmed: they are reported as unconfirmed (exit 2, re-confirm the tables), not
+            # as violations.  Findings located inside one of the new helpers stand.
+            from .model import _CURRENT
+            drift = getattr(_CURRENT[-1], "new_private_names", {}) if _CURRENT else {}
+            new_names = {n for v in drift.values() for n in v}
+            if new_names:
+                stand = [v for v in violations if set(v.function.replace("<locals>", "").split(".")) & new_names]
+                if not stand:
+                    for v in violations:
+                        print(f"UNCONFIRMED property={self.pid} [{v.rule}] {v.loc} {v.module}:{v.function}: "
+                              f"{v.construct} - {v.detail}")
+                    raise AnalysisError(
+                        "the tree was restructured (new private helpers "
+                        f"{sorted(new_names)[:8]}) and part of the analysis lost its anchors: "
+                        + "; ".join(self.rule_errors)
+                        + f"; {len(violations)} shape mismatch(es) reported by the other rules are unconfirmed")
         if self.rule_errors:
             if not violations:
                 # nothing else to report: the analysis itself is broken (exit 2)
